@@ -480,7 +480,7 @@ def export_sm_element(el):
         if not (r["expr"]["k"] == "const" and r["expr"]["t"] == "f" and r["expr"]["v"] in ("1.0", "0.5")):
             r["unsupported"] = "priority other than 1.0 / 0.5"
     elif isinstance(el, ast.Global):
-        r.update(k="global", key=el.name.lstrip("$"), unsupported="global")
+        r.update(k="global", key=el.name.lstrip("$"))
     elif isinstance(el, (ast.Log, ast.Print)):
         r.update(k="skip")
     else:
